@@ -392,6 +392,12 @@ def s1a_publication(chk: Check, proj: Project, w, reach) -> None:
     for fk in sorted(reach):
         m, f = w.cg.funcs[fk]
         # guards: `if <... X.a ...>: (store)? return` at the top level of the function
+        const_states: Dict[Tuple[str, str], Set[str]] = {}
+        for st in f.body:
+            if isinstance(st, ast.If) and always_exits(st.body):
+                for pe in ast.walk(st.test):
+                    if isinstance(pe, ast.Compare) and len(pe.ops) == 1 and isinstance(pe.ops[0], (ast.Eq, ast.Is)) and isinstance(pe.comparators[0], ast.Constant) and isinstance(pe.left, ast.Attribute) and isinstance(pe.left.value, ast.Name):
+                        const_states.setdefault((pe.left.value.id, pe.left.attr), set()).add(repr(pe.comparators[0].value))
         for st in f.body:
             if not (isinstance(st, ast.If) and always_exits(st.body)):
                 continue
@@ -402,6 +408,10 @@ def s1a_publication(chk: Check, proj: Project, w, reach) -> None:
                     tgt = pe
                     if isinstance(pe, ast.Compare) and len(pe.ops) == 1 and isinstance(pe.ops[0], ast.IsNot) and isinstance(pe.comparators[0], ast.Constant) and pe.comparators[0].value is None:
                         tgt = pe.left
+                    # a state encoded as a constant (`if self._types == False: return None`): storing that constant publishes it
+                    if isinstance(pe, ast.Compare) and len(pe.ops) == 1 and isinstance(pe.ops[0], (ast.Eq, ast.Is)) and isinstance(pe.comparators[0], ast.Constant) and isinstance(pe.left, ast.Attribute) and isinstance(pe.left.value, ast.Name):
+                        tgt = pe.left
+                        const_states.setdefault((pe.left.value.id, pe.left.attr), set()).add(repr(pe.comparators[0].value))
                     if isinstance(tgt, ast.Attribute) and isinstance(tgt.value, ast.Name):
                         flags.add((tgt.value.id, tgt.attr))
             for obj, attr in sorted(flags):
@@ -415,7 +425,7 @@ def s1a_publication(chk: Check, proj: Project, w, reach) -> None:
                 bad = None
                 for s in stores:
                     val = s.value
-                    if isinstance(val, ast.Constant) and val.value in (False, None):
+                    if isinstance(val, ast.Constant) and val.value in (False, None) and repr(val.value) not in const_states.get((obj, attr), set()):
                         continue  # resetting the flag is not a publication
                     for sn in cfg.nodes_of(s):
                         after = cfg.reachable_from([x for x, lab in sn.succ if lab not in ("x", "p")], labels={"n", "T", "F", "b"})
@@ -426,6 +436,9 @@ def s1a_publication(chk: Check, proj: Project, w, reach) -> None:
                                 continue
                             for y in walk_no_nested(x.ast, enter_root=False):
                                 if isinstance(y, ast.Attribute) and isinstance(y.ctx, ast.Store) and isinstance(y.value, ast.Name) and y.value.id == obj and not (y.attr == attr):
+                                    bad = (s, y)
+                                # a second store of the SAME field after one that readers already act on: the first was premature
+                                if isinstance(y, ast.Attribute) and isinstance(y.ctx, ast.Store) and isinstance(y.value, ast.Name) and y.value.id == obj and y.attr == attr and const_states.get((obj, attr)):
                                     bad = (s, y)
                                 # any further call means the initialisation is still going on after the flag was set
                                 if isinstance(y, ast.Call) and x.kind != "return":
@@ -591,9 +604,8 @@ def s1i_shared_instances(chk: Check, proj: Project, w) -> None:
 
 def s1a_parsed_values(chk: Check, proj: Project, w) -> None:
     chk.rule("S1-A4", "parsed tag values hang off cached template Nodes and are shared by all threads: after construction their methods write nothing but their own flag-guarded memo field - never a field of a part / entry / child (not even temporarily)")
-    m = proj.mod("util.tag_parser")
     n = 0
-    for q, c in sorted(m.defs.items()):
+    for m, q, c in [(mm_, q_, c_) for mn_ in ("util.tag_parser", "expression") for mm_ in [proj.mod(mn_)] for q_, c_ in sorted(mm_.defs.items())]:
         if not isinstance(c, ast.ClassDef):
             continue
         for f in c.body:
@@ -632,7 +644,7 @@ def s1a_parsed_values(chk: Check, proj: Project, w) -> None:
                             bad = (x, "a field that is not the method's flag-guarded memo")
                     elif root.id == "self" or root.id in alias:
                         bad = (x, "a field of an object reachable from the shared value")
-            key = f"util.tag_parser:{q}.{f.name}:no-shared-write"
+            key = f"{m.name.replace('django_components.', '')}:{q}.{f.name}:no-shared-write"
             if bad:
                 chk.violated("S1-A4", key, m.loc(bad[0][0] if isinstance(bad[0], tuple) else bad[0]), f"`{short(enclosing_stmt(bad[0]))}` writes {bad[1]}: the value belongs to a Node of a cached Template, so another thread that resolves the same tag in between sees the intermediate state (e.g. a spread marker temporarily cleared)")
             else:
